@@ -38,4 +38,5 @@ def run(F, tier):
     # the order in which the steps are taken is part of the structure that is enforced: a mandatory step taken
     # before an optional one that precedes it in the documented layout skips over that field unseen
     grules.g11(rep, tms)
+    grules.g12(rep, tms)
     return rep
